@@ -2,6 +2,7 @@ use anyhow::Result;
 use anyhow::anyhow;
 
 #[derive(Debug, Clone, Copy, PartialEq, Eq)]
+#[cfg_attr(feature = "verif-hooks", repr(u64))] // verif hook: word-sized direct tag (layout only)
 pub enum UnitCategory {
     Angle,
     Area,
@@ -51,6 +52,7 @@ impl UnitCategory {
 }
 
 #[derive(Debug, Clone)]
+#[cfg_attr(feature = "verif-hooks", repr(u64))] // verif hook: word-sized direct tag (layout only)
 pub enum ConversionType {
     /// Linear conversion: value * coefficient converts to base unit
     Linear { coefficient: f64 },
